@@ -598,7 +598,23 @@ def categoric_rules(prog, rep, rule_policy, rule_zero, fn):
     obl(rep, fn, diff[0] if diff else fn.node, rule_policy, dname is not None,
         "unseen levels = set(new values) - set(remembered levels)", "", "the unseen-level set is not `set(x) - set(self.levels)`")
     fast = S["fast"]
-    ok = fast is not None and dname is not None and fast.test.operand.id == dname
+
+    def flag_source(name):
+        """`flag = bool(X)` / `flag = len(X) > 0` / `flag = X`: the collection whose emptiness the flag stands for"""
+        ds = [s_.value for s_ in walk_local(fn.node) if isinstance(s_, ast.Assign) and len(s_.targets) == 1 and unparse(s_.targets[0]) == name]
+        if len(ds) != 1:
+            return name
+        v = ds[0]
+        if isinstance(v, ast.Call) and dotted(v.func) == "bool" and len(v.args) == 1 and isinstance(v.args[0], ast.Name):
+            return v.args[0].id
+        if isinstance(v, ast.Compare) and len(v.ops) == 1 and isinstance(v.left, ast.Call) and dotted(v.left.func) == "len" and len(v.left.args) == 1 \
+                and isinstance(v.left.args[0], ast.Name) and isinstance(v.ops[0], (ast.Gt, ast.NotEq)) and const_value(v.comparators[0], None) == 0:
+            return v.left.args[0].id
+        if isinstance(v, ast.Name):
+            return v.id
+        return name
+
+    ok = fast is not None and dname is not None and flag_source(fast.test.operand.id) == dname
     if ok:
         rets = [n for n in fast.body if isinstance(n, ast.Return)]
         ok = len(rets) == 1 and isinstance(rets[0].value, ast.Subscript) and unparse(rets[0].value.value) == "self.contrast_matrix.matrix"
